@@ -101,7 +101,9 @@ pub fn run(ctx: &mut Ctx) {
         let res = match res {
             Ok(r) => r,
             Err(msg) => {
-                ctx.inconclusive(&format!("panic: {msg}"), wl, case);
+                // well-formed data: removing and restoring rows must not make construction or the solve panic
+                let site = msg.rsplit(" @ ").next().unwrap_or("").replace("/repo/", "");
+                ctx.violation("panic_with_infinite_bounds", &format!("panic_with_infinite_bounds:{site}"), wl, case, json!({"problem": p.to_json(), "settings": problem::settings_json(&st), "bound": bound, "planted": planted, "panic": msg}));
                 continue;
             }
         };
